@@ -129,6 +129,10 @@ func runC02(c *core.Case) {
 			randDirty(c.Rng.IntN(4))
 			if cur > 2 {
 				spec.NewPageN = cur - uint32(1+c.Rng.IntN(int(cur-2)))
+				if c.Rng.IntN(2) == 0 {
+					spec.DirtyCut = uint32(1 + c.Rng.IntN(2))
+					spec.SpillAfter = 1 + c.Rng.IntN(3)
+				}
 			}
 		case "spill":
 			randDirty(6 + c.Rng.IntN(10))
